@@ -42,7 +42,8 @@ func isKnownPure(f *types.Func) bool {
 	case "errors.New", "fmt.Errorf", "fmt.Sprintf", "fmt.Sprint", "fmt.Sprintln", "bytes.Equal", "bytes.Compare", "time.Now", "time.Time.UnixNano",
 		"time.Time.Unix", "math/big.NewInt", "strings.HasPrefix", "strings.ToLower", "strings.ToUpper", "strconv.Itoa", "strconv.FormatUint",
 		"strconv.FormatInt", "bytes.HasPrefix", "time.Since", "time.Time.Sub", "time.Time.Before", "time.Time.After", "time.Duration.Seconds",
-		"errors.Is", "strings.Contains", "strings.TrimSpace", "fmt.Println", "fmt.Printf", "fmt.Print", "strconv.Quote":
+		"errors.Is", "strings.Contains", "strings.TrimSpace", "fmt.Println", "fmt.Printf", "fmt.Print", "strconv.Quote",
+		"encoding/json.Unmarshal", "encoding/json.Marshal":
 		return true
 	}
 	if strings.HasPrefix(n, "math/big.Int.") {
@@ -100,6 +101,19 @@ func (fr *Frame) knownPure(s *State, f *types.Func, recv *Val, args []*Val) ([]*
 		return []*Val{{T: boolT, S: fmt.Sprintf("(seq.contains %s %s)", args[0].S, args[1].S)}}, true
 	case "time.Now", "time.Time.UnixNano", "time.Time.Unix", "time.Since", "time.Time.Sub", "time.Time.Before", "time.Time.After", "time.Duration.Seconds", "errors.Is":
 		fr.eng.dropped["time/opaque"]++
+		return fr.freshResults(s, sig.Results()), true
+	case "encoding/json.Marshal":
+		res := fr.freshResults(s, sig.Results())
+		return res, true
+	case "encoding/json.Unmarshal":
+		// the pointee of the second argument is overwritten with an arbitrary well-typed value
+		if pt, ok := args[1].T.Underlying().(*types.Pointer); ok {
+			hn, hs := fr.eng.ptrHeap(pt.Elem())
+			nv := fr.freshVal(s, pt.Elem(), "json")
+			s.setHeap(hn, hs, fmt.Sprintf("(store %s %s %s)", s.heap(hn, hs), args[1].S, nv.S))
+		} else {
+			fr.havocEverything(s)
+		}
 		return fr.freshResults(s, sig.Results()), true
 	case "math/big.NewInt":
 		ref := s.alloc()
